@@ -1,6 +1,7 @@
 """C08 OrderAgreement: |E_method - E_exact| = O(a^n) when both couplings are scaled together.
 
-Observation: log2( D(lambda) / D(lambda/2) ) at small couplings (10*a ~ 0.01..0.06 for towers
+Observation: log2( D(lambda/2) / D(lambda/4) ), kept only where it agrees within 0.15 with
+log2( D(lambda) / D(lambda/2) ) (asymptotic regime), lower quartile over the points, at small couplings (10*a ~ 0.01..0.06 for towers
 with |gamma_k| ~ 3*10^k), D relative to |E_exact|.
 Non-singlet reference: the closed-form exact kernel (judged by C07).
 Singlet reference, commuting towers (gamma_k = V diag V^-1 with a common V): V diag(exact
@@ -50,7 +51,7 @@ def measure(cell, seed, npts):
         ok = True
         if sec == "ns":
             g = c.ns_tower(rng, order)
-            for lam in (1.0, 0.5):
+            for lam in (1.0, 0.5, 0.25):
                 ex = kern.ns(order, "iterate-exact", g, lam * a1, lam * a0, nf)
                 d.append(abs(kern.ns(order, m, g, lam * a1, lam * a0, nf) - ex) / abs(ex))
         else:
@@ -58,7 +59,7 @@ def measure(cell, seed, npts):
                 G, v, ev = _commuting(rng, order)
             else:
                 G = c.singlet_tower(rng, order)
-            for lam in (1.0, 0.5):
+            for lam in (1.0, 0.5, 0.25):
                 if cell["comm"]:
                     es = [kern.ns(order, "iterate-exact", ev[:, i], lam * a1, lam * a0, nf) for i in range(2)]
                     ref, err = v @ np.diag(es) @ np.linalg.inv(v), 0.0
@@ -72,11 +73,17 @@ def measure(cell, seed, npts):
         if cell["comm"] and max(d) < 1e-12:
             exps.append(90.0)  # agrees to rounding with the closed form: vanishes at every order
             continue
-        if not ok or not (d[0] > 0 and d[1] > 0):
+        if not ok or not min(d) > 0:
             dropped += 1
             continue
-        exps.append(math.log2(d[0] / d[1]))
+        e1, e2 = math.log2(d[0] / d[1]), math.log2(d[1] / d[2])
+        # asymptotic regime only: the local exponent must have settled between the two scales
+        # (an accidentally small leading coefficient makes it drift towards n from below)
+        if abs(e2 - e1) > 0.15:
+            dropped += 1
+            continue
+        exps.append(e2)
     if not exps:
-        return {"resolved": False, "exp100": 0, "why": "difference not 2 decades above the error of the extrapolated reference"}
-    e = min(exps)
+        return {"resolved": False, "exp100": 0, "why": "no point in the asymptotic regime with the difference 2 decades above the error of the extrapolated reference"}
+    e = c.low_quartile(exps)
     return {"exp100": c.exp100(e), "raw_exp": e, "resolved": True, "n": len(exps), "dropped_points": dropped}
